@@ -83,6 +83,17 @@ Proof.
   unfold synced, half_wf, cipher_match. cbn. rewrite <- Hm, Hmac. repeat split; auto; try discriminate.
 Qed.
 
+(* what setTrafficSecret (conn.go:232) leaves behind: the stored secret IS the secret the installed key and IV
+   were derived from (so the next update ratchets from the current generation, not an older one), seq = 0 *)
+Theorem C25_secret_tracks_keys : forall P (h : half) (suite : N) (secret : bytes),
+  let h' := set_traffic_secret P h suite secret in
+  h_secret h' = secret /\ h_seq h' = 0 /\
+  exists ci, h_cipher h' = Some ci /\ c_kind ci = KAeadXor /\ (c_key ci, c_iv ci) = traffic_key P suite secret.
+Proof.
+  intros P h suite secret. cbv zeta. unfold set_traffic_secret.
+  destruct (traffic_key P suite secret) as [k iv]. cbn. repeat split. eexists. repeat split.
+Qed.
+
 (* ... and so does any number of generations: after n key updates in one direction (whoever started them,
    whatever update_requested said) writer and reader hold the n-th secret, its key and IV, sequence 0 *)
 Fixpoint ratchet_n (P : prims) (suite : N) (n : nat) (h : half) : half :=
